@@ -127,7 +127,7 @@ sized!(array_get__borrowed_n0, get_borrowed, 0, 3);
 sized!(array_get__borrowed_n3, get_borrowed, 3, 6);
 sized!(array_extract__owned_out_of_range_n0, extract_owned_out_of_range, 0, 3);
 sized!(array_extract__owned_out_of_range_n1, extract_owned_out_of_range, 1, 2);
-// NOT REGISTERED sizes: n2 / n3 out of range (drop of a 2- / 3-element owned vector inside `extract`): no result in 200 s
+// n2 out of range: see the end of the file (needs the mem::drop contract stub)
 
 macro_rules! at {
     ($name:ident, $n:literal, $i:literal, $unwind:literal) => {
@@ -140,7 +140,7 @@ macro_rules! at {
 }
 
 at!(array_extract__owned_n1_at0, 1, 0, 2);
-// NOT REGISTERED: n2 at 0 / at 1 (a one-element rest is dropped inside `extract`): no result in 300 s
+// n2 at 0 / at 1: see the end of the file (need the mem::drop contract stub; without it no result in 300 s)
 sized!(array_extract__borrowed_n0, extract_borrowed, 0, 3);
 sized!(array_extract__borrowed_n1, extract_borrowed, 1, 4);
 sized!(array_extract__borrowed_n3, extract_borrowed, 3, 6);
@@ -169,4 +169,13 @@ fn array_extract__owned_n2_at0() {
 #[kani::unwind(3)]
 fn array_extract__owned_n2_at1() {
     extract_owned_at::<2, 1>()
+}
+
+// NOT REGISTERED: no result in 500 s (drop of a 3-element owned vector inside `extract`)
+#[kani::proof]
+#[kani::stub(std::mem::drop, crate::lhs_types::verif_kani::common::mem_drop__releases_nothing_observable)]
+#[kani::solver(minisat)]
+#[kani::unwind(4)]
+fn array_extract__owned_out_of_range_n3() {
+    extract_owned_out_of_range::<3>()
 }
